@@ -38,6 +38,7 @@ type gen struct {
 	gotShutdown                     map[string]bool
 	execFail                        map[string]bool // extensions whose Exec currently fails
 	execFailUsed                    int
+	initFirst                       bool // the case starts with an init that no invocation awaits
 }
 
 func newGen(r *rng.R, family string) *gen {
@@ -64,6 +65,12 @@ func newGen(r *rng.R, family string) *gen {
 	if family == "restore" {
 		ne = r.Intn(2)
 		g.cfg.snapshot = true
+		g.pre = append(g.pre, []string{"init"})
+	}
+	if (family == "shutdown" || family == "faults") && r.Chance(1, 4) {
+		// the init runs before any invocation (as with the standalone front end): it may fail, and the idle
+		// emulator may be reset, with nobody having awaited its outcome
+		g.initFirst = true
 		g.pre = append(g.pre, []string{"init"})
 	}
 	g.cfg.exts = append([]string{}, names[:ne]...)
@@ -156,7 +163,14 @@ func (g *gen) next(w *world) []string {
 	}
 	fills := []string{"rand", "zero", "ff", "crlf", "utf8bad"}
 	if callers == 0 && g.invLeft > 0 && !g.resetPending {
-		add(40, "invoke", fmt.Sprint(g.nextCaller), fmt.Sprint(sizes[g.r.Intn(len(sizes))]), fills[g.r.Intn(len(fills))])
+		wInv := 40
+		if g.initFirst && g.delivered == 0 {
+			wInv = 6
+			if g.family == "faults" && !g.resetPending {
+				add(3, "reset", []string{"timeout", "failure", "explicit"}[g.r.Intn(3)])
+			}
+		}
+		add(wInv, "invoke", fmt.Sprint(g.nextCaller), fmt.Sprint(sizes[g.r.Intn(len(sizes))]), fills[g.r.Intn(len(fills))])
 	}
 	if callers > 0 && conc > 0 {
 		add(conc, "invoke", fmt.Sprint(g.nextCaller), "5", "rand")
@@ -319,7 +333,7 @@ func (g *gen) next(w *world) []string {
 		if callers > 0 {
 			add(3, "sleep", fmt.Sprint(g.cfg.timeout+150))
 			add(3, "sleep", "700")
-		} else if g.delivered > 0 && !g.resetPending {
+		} else if (g.delivered > 0 || g.initFirst) && !g.resetPending {
 			// explicit reset / shutdown of an idle environment (never concurrently with another reset:
 			// concurrent Reset() calls share one unbuffered completion channel)
 			add(6, "reset", []string{"timeout", "failure", "explicit"}[g.r.Intn(3)])
